@@ -1,5 +1,5 @@
 from . import core
-from .ks_instr import UV, instrument, replace_env
+from .ks_instr import UV, instrument, instrumented_overlay, replace_env
 from .props import HDR, standard
 
 KS = "services/keepstore"
@@ -19,7 +19,8 @@ def stage(ctx, n, suffix="", off=0, extra_env=None):
     rep[UV] = inst
     e = {"VERIF_STAGE": name}
     e.update(extra_env or {})
-    return ctx.stage(name, KS, "main", FILES, "TestVerifC02$", n, HDR2, seed_offset=off, shard=60, env=e, timeout=2400, replace=rep)
+    with instrumented_overlay():
+        return ctx.stage(name, KS, "main", FILES, "TestVerifC02$", n, HDR2, seed_offset=off, shard=60, env=e, timeout=2400, replace=rep)
 
 
 def run(ctx):
